@@ -200,6 +200,12 @@ def trace_local(body, l, proj=(), depth=0, seen=None, through_calls=TRANSPARENT_
             elif cd == TRY_BRANCH and try_transparent and rest[:2] == (('dc', 'Break'), ('f', 0)):
                 is_opt = bool(c.term['arg_tys']) and c.term['arg_tys'][0].startswith('std::option::Option<')
                 out |= trace_operand(body, c.args[0], (('dc', 'None' if is_opt else 'Err'),) + rest[2:], depth=depth + 1, seen=seen, **kw)
+            elif _trivial_getter(body, c) is not None and c.args:
+                # `span.start()` with `fn start(&self) -> usize { self.0 }`: a field projection under a name
+                out |= trace_operand(body, c.args[0], (('f', _trivial_getter(body, c)),) + rest, depth=depth + 1, seen=seen, **kw)
+            elif rest and rest[0][0] == 'f' and _trivial_ctor_param(body, c, rest[0][1]) is not None:
+                # `Span::from_to(a, b)` with `fn from_to(a, b) -> Self { Span(a, b) }`: field k of the result is argument p
+                out |= trace_operand(body, c.args[_trivial_ctor_param(body, c, rest[0][1]) - 1], rest[1:], depth=depth + 1, seen=seen, **kw)
             elif cd == FROM_RESIDUAL and rest[:1] in ((('dc', 'Ok'),), (('dc', 'Some'),)) and len(cands) > 1:
                 # from_residual only ever produces the failure variant: this definition cannot be the one
                 # whose Ok / Some payload is read
@@ -244,6 +250,83 @@ def trace_local(body, l, proj=(), depth=0, seen=None, through_calls=TRANSPARENT_
         else:
             out.add(Origin('unknown', kind, rest))
     return out
+
+
+def _local_callee(body, c):
+    prog = getattr(body.facts, '_prog', None)
+    if prog is None or not c.ruid:
+        return None
+    g = prog.by_id.get(c.ruid)
+    if g is None or g.is_closure or g.n > 3 or g.live_calls:
+        return None
+    return g
+
+
+def _trivial_getter(body, c):
+    """index k when the callee is `fn name(&self) -> T { self.k }` (one assignment, no call, no branch), else None"""
+    g = _local_callee(body, c)
+    if g is None or g.arg_count != 1:
+        return None
+    memo = g.__dict__.setdefault('_tgetter', [False, None])
+    if memo[0]:
+        return memo[1]
+    memo[0] = True
+    asg = [(bb, i, pl, rv) for bb, i, pl, rv in g.assigns()]
+    ret = [x for x in asg if x[2]['l'] == 0 and not x[2]['p']]
+    if len(ret) != 1 or any(g.blocks[bb]['term']['k'] == 'switch' for bb in g.live_blocks):
+        return None
+    rv = ret[0][3]
+    if rv['k'] != 'use' or rv['op']['k'] not in ('copy', 'move'):
+        return None
+    pl = rv['op']['pl']
+    # follow one level of `_2 = copy (*_1).k; _0 = move _2`
+    hops = 0
+    while pl['l'] != 1 and not pl['p'] and hops < 2:
+        d = [x for x in asg if x[2]['l'] == pl['l'] and not x[2]['p']]
+        if len(d) != 1 or d[0][3]['k'] != 'use' or d[0][3]['op']['k'] not in ('copy', 'move'):
+            return None
+        pl = d[0][3]['op']['pl']
+        hops += 1
+    if pl['l'] != 1:
+        return None
+    fs = [e for e in pl['p'] if e != 'deref']
+    if len(fs) != 1 or not isinstance(fs[0], dict) or 'f' not in fs[0]:
+        return None
+    memo[1] = fs[0]['f']
+    return memo[1]
+
+
+def _trivial_ctor_param(body, c, k):
+    """parameter index p when the callee is `fn new(a, b, ..) -> Self { Self(.., a, ..) }` and field k of the value
+    it returns is its parameter p handed on unchanged, else None"""
+    g = _local_callee(body, c)
+    if g is None or g.arg_count < 1:
+        return None
+    memo = g.__dict__.setdefault('_tctor', {})
+    if k in memo:
+        return memo[k]
+    memo[k] = None
+    if any(g.blocks[bb]['term']['k'] == 'switch' for bb in g.live_blocks):
+        return None
+    asg = [(bb, i, pl, rv) for bb, i, pl, rv in g.assigns()]
+    ret = [x for x in asg if x[2]['l'] == 0 and not x[2]['p']]
+    if len(ret) != 1 or ret[0][3]['k'] != 'agg' or ret[0][3].get('agg') not in ('adt', 'tuple') or k >= len(ret[0][3]['ops']):
+        return None
+    if ret[0][3].get('agg') == 'adt' and ret[0][3].get('is_enum'):
+        return None
+    op = ret[0][3]['ops'][k]
+    hops = 0
+    while op['k'] in ('copy', 'move') and not op['pl']['p'] and hops < 3:
+        l = op['pl']['l']
+        if 1 <= l <= g.arg_count and not [x for x in asg if x[2]['l'] == l]:
+            memo[k] = l
+            return l
+        d = [x for x in asg if x[2]['l'] == l and not x[2]['p']]
+        if len(d) != 1 or d[0][3]['k'] != 'use':
+            return None
+        op = d[0][3]['op']
+        hops += 1
+    return None
 
 
 def single_origin(origins):
